@@ -1,25 +1,28 @@
-"""C11 — regular-expression machines accept exactly the expression's language.  (bounded only)
+"""C11 — regular-expression machines accept exactly the expression's language.  (bounded; one deductive lemma on the lookup order)
 
 No contract within reach of pyvc expresses "accepts exactly L(r)": state.from_regex translates an
 automaton of an external library (greenery) into a state graph that only means something through the
 interpreter.  Bounded stand-in: all expressions up to a size bound over a small alphabet x all input
 strings up to a length bound x chunkings, against an independent Brzozowski-derivative matcher.
 """
+from .util import distinct_keys
 import itertools
 import random
 
 PROPERTY = 'C11'
 LEVEL = 'exploration'
-LEVEL_TEXT = ('Bounded only (not_applicable to deductive contracts: the translation from_regex consumes a greenery automaton and produces a graph for the '
-              'DFA interpreter). Exhaustive over a stated scope: every regular expression with up to 2 operators (quick; 3 sampled / all in thorough) over the '
+LEVEL_TEXT = ('Deciding tier is bounded (the translation from_regex consumes a greenery automaton and produces a graph for the '
+              'DFA interpreter, which no contract within reach of pyvc covers). One deductive contract IS discharged for all symbols and tables: '
+              'state.__getitem__ looks a symbol up most-specific-first (the exact symbol, else the wildcard when a symbol is present, else the no-input '
+              'transition, else KeyError) - the determinism every translated graph relies on. Exhaustive over a stated scope: every regular expression with up to 1 operator and a sample of those with 2 (quick) / all with up to 2 and 1000 sampled with 3 (thorough) over the '
               'atoms a, b, [ab], [^a], ., and the two-byte symbol e-acute, with literals, classes, negated classes, dot, alternation, grouping, * + ? and {m,n}; '
-              'every input string up to length 4 (5 in thorough) over {a,b,c,e-acute}; for regex and regex_bytes (UTF-8), whole and symbol-at-a-time chunking. '
+              'every input string up to length 3 and a sample of length 4 (quick) / every string up to length 4 and 300 of length 5 (thorough) over {a,b,c,e-acute}; for regex and regex_bytes (UTF-8), whole and symbol-at-a-time chunking. '
               'Oracle: an independent derivative-based matcher giving the longest prefix still extensible to a sentence, acceptance iff that prefix '
               '(length >= 1) is a sentence.')
-LEVEL_NOTE = 'greenery and the interpreter are exercised as they are; nothing is proved. The only alphabet symbols used in inputs are a, b, c and e-acute.'
-TECHNIQUE = 'bounded exhaustive enumeration of small regular expressions x short inputs against an independent Brzozowski-derivative oracle (no deductive obligation)'
-TRUSTED = ['the derivative oracle in this file']
-ASSUMPTIONS = ['scope: expressions <= 2 (quick) / 3 (thorough) operators, inputs <= 4 / 5 symbols']
+LEVEL_NOTE = 'greenery and the interpreter are exercised as they are; only the lookup order of one state is proved (states without predicate recognizers and encoder). The only alphabet symbols used in inputs are a, b, c and e-acute.'
+TECHNIQUE = 'bounded exhaustive enumeration of small regular expressions x short inputs against an independent Brzozowski-derivative oracle; deductive contract (pyvc, z3) on state.__getitem__ lookup order'
+TRUSTED = ['the derivative oracle in this file', 'T10: CPython keeps the integers -5..256 as singletons (`enc is not self.NON`)', 'the dict part of a state is an uninterpreted table']
+ASSUMPTIONS = ['scope: expressions <= 2 (quick) / 3 (thorough) operators, inputs <= 4 / 5 symbols; expressions with 3 operators and inputs of 5 symbols are sampled']
 
 ALPHA = ['a', 'b', 'c', u'\xe9']
 
@@ -41,8 +44,8 @@ def show(r, top=True):
         s = '%s|%s' % (show(r[1], False), show(r[2], False))
         return s if top else '(%s)' % s
     body = show(r[1], False)
-    if r[1][0] in ('cat', 'alt', 'star', 'plus', 'opt', 'rep') and not body.startswith('('):
-        body = '(%s)' % body
+    if r[1][0] in ('star', 'plus', 'opt', 'rep') or (r[1][0] in ('cat', 'alt') and not (body.startswith('(') and body.endswith(')') and body.count('(') == 1)):
+        body = '(%s)' % body          # a quantifier applies to one group: stacked quantifiers and sequences are parenthesised
     if k == 'star':
         return body + '*'
     if k == 'plus':
@@ -206,6 +209,74 @@ def exprs(ops):
                 yield ('alt', x, y)
 
 
+_GREENERY = {}
+
+
+def greenery_view(rx):
+    """(fsm of the expression as reduced by greenery.lego.parse - what cpppo builds its machine from, fsm of the expression as written, differ?)
+    differ: the two automata do not accept the same strings up to length 4 over their alphabet: greenery's reduction changed the language"""
+    if rx in _GREENERY:
+        return _GREENERY[rx]
+    import greenery.lego as lego
+    red = lego.parse(rx).fsm()
+    pat, i = lego.pattern.match(rx, 0)
+    wri = pat.fsm() if i == len(rx) else None
+    differ = False
+    if wri is not None:
+        alpha = sorted((set(red.alphabet) | set(wri.alphabet)) - {None}) + [u'\u2400']
+        for n in range(0, 5):
+            for t in itertools.product(alpha, repeat=n):
+                if fsm_accepts(red, t) != fsm_accepts(wri, t):
+                    differ = True
+                    break
+            if differ:
+                break
+    _GREENERY[rx] = (red, wri, differ)
+    return _GREENERY[rx]
+
+
+def fsm_step(f, state, ch):
+    row = f.map.get(state, {})
+    return row.get(ch, row.get(None)) if (ch in row or None in row) else None
+
+
+def fsm_accepts(f, text):
+    st = f.initial
+    for ch in text:
+        st = fsm_step(f, st, ch)
+        if st is None:
+            return False
+    return st in f.finals
+
+
+def fsm_live(f, state, _cache={}):
+    key = (id(f), state)
+    if key not in _cache:
+        seen, todo, live = set(), [state], False
+        while todo:
+            x = todo.pop()
+            if x in seen:
+                continue
+            seen.add(x)
+            if x in f.finals:
+                live = True
+                break
+            todo.extend(v for v in f.map.get(x, {}).values())
+        _cache[key] = live
+    return _cache[key]
+
+
+def fsm_oracle(f, text):
+    """what a faithful translation of the automaton f does: consume while the next state can still reach a final state"""
+    st, n = f.initial, 0
+    for ch in text:
+        nx = fsm_step(f, st, ch)
+        if nx is None or not fsm_live(f, nx):
+            break
+        st, n = nx, n + 1
+    return n, (n >= 1 and st in f.finals)
+
+
 def run_real(rx, text, as_bytes, chunked):
     import cpppo
     cls = cpppo.regex_bytes if as_bytes else cpppo.regex
@@ -236,7 +307,7 @@ def run_real(rx, text, as_bytes, chunked):
     return term, src.sent, stored, exc
 
 
-def bounded(tier, seed):
+def bounded(tier, seed, part=(0, 1)):
     from . import sim
     sim.quiet()
     rng = random.Random(seed)
@@ -254,10 +325,19 @@ def bounded(tier, seed):
         res += rng.sample(two, 70)
         strs = [s for s in strings if len(s) <= 3] + rng.sample([s for s in strings if len(s) == 4], 60)
     else:
-        res += two + rng.sample(list(exprs(3)), 1500)
-        strs = strings
+        # thorough: every expression with up to 2 operators and a sample of those with 3, divided over the parallel runs (run i of n takes every
+        # n-th expression; the sample is drawn with a fixed seed so that all runs agree on it); all inputs up to length 4 and a sample of length 5
+        fixed = random.Random(11)
+        res += two + fixed.sample(list(exprs(3)), 1000)
+        res = [r for k, r in enumerate(res) if k % part[1] == part[0]]
+        strs = [s for s in strings if len(s) <= 4] + fixed.sample([s for s in strings if len(s) == 5], 300)
+    # fixed expressions with a repeated repetition (3 operators): always part of the enumeration, both tiers
+    b_, a_ = ('lit', 'b'), ('lit', 'a')
+    res += [('star', ('cat', ('plus', b_), b_)), ('opt', ('cat', ('plus', b_), b_)), ('star', ('cat', a_, ('plus', a_))), ('plus', ('cat', ('plus', b_), b_)),
+            ('star', ('rep', a_, 2, 2))]
     seen = set()
     unsupported = set()
+    greenery_hits = []
     for r in res:
         rx = show(r)
         if rx in seen:
@@ -295,6 +375,19 @@ def bounded(tier, seed):
                 # input that can not continue while not accepting must fail (NonTerminal), not be absorbed
                 if not acc and n < len(text) and exc is None and term:
                     ok = False
+                if not ok and not as_bytes:
+                    # attribution: cpppo builds the machine from greenery.lego.parse(rx), which also *reduces* the expression; where that
+                    # reduction changes the language and the real machine does exactly what the reduced automaton says, the cause is the
+                    # known defect of the greenery library (recorded finding), not the translation or the interpreter
+                    try:
+                        red, wri, differ = greenery_view(rx)
+                        if differ and fsm_oracle(red, text) == (sent, term):
+                            greenery_hits.append((rx, text))
+                            continue
+                    except Exception:
+                        pass
+                if not ok and as_bytes and (rx, text) in set(greenery_hits):
+                    continue
                 if not ok and len(violations) < 8:
                     violations.append(dict(key='regex %r input %r bytes=%r chunked=%r' % (rx, text, as_bytes, chunked),
                                            observed='terminal=%r consumed=%r stored=%r exception=%r' % (term, sent, stored, exc),
@@ -304,6 +397,13 @@ def bounded(tier, seed):
             samples.append(dict(regex=rx, example_input='abab', oracle=oracle(r, 'abab')))
         if len(violations) >= 8:
             break
+    if greenery_hits:
+        exprs_hit = sorted(set(rx for rx, _ in greenery_hits))
+        rx0, t0 = greenery_hits[0]
+        violations.append(dict(key='greenery reduction changes the language: regex %r input %r' % (rx0, t0),
+                               observed='the machine does what greenery.lego.parse(%r) == %s says; %d (expression, input) pairs over %d expressions behave like this, eg. %s'
+                                        % (rx0, __import__('greenery.lego').lego.parse(rx0), len(greenery_hits), len(exprs_hit), ', '.join(map(repr, exprs_hit[:6]))),
+                               required='the language of the expression as written (greenery.lego.pattern.match(rx).fsm() and the derivative oracle agree on it)'))
     # ---- literals whose UTF-8 encoding takes 3 and 4 bytes (regex_bytes expands them into chains of states)
     wide = [('lit', u'\u20ac'), ('lit', u'\U0001d11e'), ('lit', 'a')]
     wexprs = list(wide)
@@ -340,7 +440,7 @@ def bounded(tier, seed):
                     violations.append(dict(key='regex %r input %r bytes=%r (wide symbols)' % (rx, text, as_bytes),
                                            observed='terminal=%r consumed=%r stored=%r exception=%r' % (term, sent, stored, exc),
                                            required='consume %d symbols, accept=%r' % (n, acc)))
-    return dict(evaluations=ev, distinct_nontrivial=len(distinct),
+    return dict(evaluations=ev, distinct_nontrivial=len(distinct), distinct_keys=distinct_keys(distinct),
                 rule='all expressions with 0..1 operators and %s with 2 (and 3 in thorough) over atoms {a, b, [ab], [^a], ., e-acute} and operators cat, |, *, +, ?, {0,1},{1,2},{2,2},{0,2}; '
                      'x input strings up to length %d over {a,b,c,e-acute} (all up to 3, sampled at 4 in quick); for cpppo.regex and cpppo.regex_bytes, whole input and (sampled) '
                      'symbol-at-a-time chunking; oracle = derivative matcher: longest extensible prefix consumed and stored, accepted iff it is a sentence of length >= 1, '
@@ -348,5 +448,59 @@ def bounded(tier, seed):
                 exhaustive=(tier != 'quick'), samples=samples, violations=violations[:20], seed=seed)
 
 
+# ------------------------------------------------------------------------------------------------ deductive core: the transition lookup order
+import z3 as _z3
+
+A_F = 'automata.py'
+HAS = _z3.Function('tx_has', _z3.IntSort(), _z3.BoolSort())      # the state's transition table (its dict part): symbol -> present?, target id
+TGT = _z3.Function('tx_target', _z3.IntSort(), _z3.IntSort())
+
+
+def table_lookup(eng, recv, name, args, st, n):
+    """dict.__getitem__ of the state's own transition table: the target id when the key is present, else KeyError"""
+    from pyvc.vals import IntV, ExcV, Unsupported
+    from pyvc.pure import to_int
+    if name != '__getitem__' or len(args) != 1:
+        raise Unsupported('super().%s' % name)
+    for s0, a in eng.split(st, args[0]):
+        k = to_int(a)
+        for s, ok in eng.fork(s0, HAS(k)):
+            if ok:
+                yield s, IntV(TGT(k))
+            else:
+                yield s, ExcV('KeyError', 'no such transition', getattr(n, 'lineno', None))
+
+
+def lookup_spec():
+    from pyvc.spec import Spec
+    from pyvc.vals import IntV, BoolV
+    from pyvc.pure import to_int
+    def enc(pe, x):
+        from pyvc.pure import alts_of
+        from pyvc.vals import NoneV
+        t = None
+        for g, v in alts_of(x):
+            val = _z3.IntVal(-2) if isinstance(v, NoneV) else to_int(v)
+            t = val if t is None else _z3.If(g, val, t)
+        return IntV(t)
+    funcs = dict(enc=enc, has=lambda pe, k: BoolV(HAS(to_int(k))), tgt=lambda pe, k: IntV(TGT(to_int(k))))
+    ENC = 'enc(inp)'
+    return Spec('state.__getitem__', (A_F, 'state.__getitem__'), params={'inp': 'OptInt'}, cls_name='state',
+                fields={'recognizers': ('Const', ()), 'encoder': 'None'}, inline=['encode'],
+                requires='inp is None or inp >= 0',
+                defs=dict(E=ENC),
+                ensures=[('most specific first: the transition on exactly this symbol',
+                          'implies(has(E), result == tgt(E))'),
+                         ('else, when a symbol is present, the wildcard transition', 'implies(not has(E) and inp is not None and has(-1), result == tgt(-1))'),
+                         ('else the no-input transition', 'implies(not has(E) and (inp is None or not has(-1)), result == tgt(-2))')],
+                raises={'KeyError': 'not has(E) and (inp is None or not has(-1)) and not has(-2)'},
+                refuses=[('no transition at all', 'not has(E) and (inp is None or not has(-1)) and not has(-2)')],
+                accepts=[('some transition applies', 'has(E) or (inp is not None and has(-1)) or has(-2)')],
+                modifies=[], hints=dict(funcs=funcs, super_builtin=table_lookup),
+                note='whole function, for a state without predicate recognizers and without an encoder (the states from_regex builds for text); '
+                     'the dict part of the state is an uninterpreted table; symbols are non-negative code points, ANY == -1, NON == -2 (read from the class)')
+
+
 def contracts(repo):
-    return []
+    return [lookup_spec()]
+
